@@ -359,6 +359,8 @@ class R:
         raise Unsupported(f'concretisation of symbolic value {self!r}')
 
     def __float__(self):
+        if self.special is None and not self.t.is_const() and (CTX.exploring or CTX.concrete_env is not None):
+            return concretise_float(self)
         return float(self._concrete())
 
     def __int__(self):
@@ -550,6 +552,36 @@ def concretise_int(x, limit=12) -> int:
         if bool(x == v):
             return v
     raise _Abort('path infeasible')
+
+
+def concretise_float(x) -> float:
+    """float() of a symbolic real leaves the model: a Python float has to be handed out.  Concolic treatment: one feasible
+    value v is taken from a model of the path condition and the path forks on x == v; the branch x == v continues with the
+    concrete float, the branch x != v ends as an encoding gap (Unsupported), so the restriction is never reported as a pass."""
+    x = R.lift(x)
+    if CTX.concrete_env is not None:
+        return float(T.evaluate(x.t, CTX.concrete_env))
+    key = ('conc_float', x.t.key())
+    v = CTX.defined.get(key)
+    if v is None:
+        kv = R(T.fresh('concf'))
+        base = [*CTX.assumptions, *CTX.pc, kv == x]
+        for pref in ([kv > Fraction(1, 3), kv < Fraction(2, 3)], [kv > 0], []):
+            r = solve([*base, *pref], timeout_ms=max(CTX.fork_timeout_ms, 5000))
+            if r.status == 'sat':
+                break
+        if r.status != 'sat':
+            raise Unsupported(f'float() of symbolic value {x!r}: solver {r.status}')
+        for k_, val in (r.model or {}).items():
+            if k_ == _var_name(kv):
+                v = Fraction(val).limit_denominator(10**6)
+        if v is None:
+            raise Unsupported(f'float() of symbolic value {x!r}: no model value')
+        CTX.defined[key] = v
+    if bool(x == v):
+        CTX.notes.append(f'float({x!r}) concretised to {v}')
+        return float(v)
+    raise Unsupported(f'float() of symbolic value {x!r}: only the value {v} is followed')
 
 
 def _var_name(r: 'R') -> str:
@@ -1027,7 +1059,7 @@ def explore(fn, max_paths=256, catch=(Exception,)):
                 work.extend(CTX.pending)
                 continue
             except HarnessError as e:
-                p = Path(list(CTX.decisions), list(CTX.pc), inconclusive=f'{type(e).__name__}: {e}')
+                p = Path(list(CTX.decisions), list(CTX.pc), inconclusive=f'{type(e).__name__}: {e}', notes=CTX.notes)
             except catch as e:
                 if os.environ.get('SYMEX_DEBUG'):
                     import traceback
